@@ -1,3 +1,4 @@
+import RodbusModel.Props.C01Write
 import RodbusModel.Props.C07
 import RodbusModel.Props.C03
 import RodbusModel.Props.C04
@@ -26,3 +27,6 @@ import RodbusModel.Props.C04
 #print axioms Rodbus.C04.returned_indices
 #print axioms Rodbus.C04.trichotomy
 #print axioms Rodbus.C03.encode_len
+#print axioms Rodbus.C01W.write_failure_ends_session
+#print axioms Rodbus.C01W.write_failure_unreached
+#print axioms Rodbus.C01W.write_failure_session
